@@ -242,6 +242,20 @@ def known_findings():
     return json.loads(p.read_text()) if p.exists() else {"findings": [], "fixed": []}
 
 
+def corpus(stream):
+    """minimised / first failing cases of past detections (seeded changes, reverted repairs), one case line per line in
+    /verif/corpus/<stream>.txt ('#' starts a comment); they run first in the stream, under ids cp0, cp1, ..."""
+    f = VERIF / "corpus" / f"{stream}.txt"
+    if not f.exists(): return []
+    out = []
+    for l in f.read_text().splitlines():
+        l = l.rstrip("\n")
+        if not l.strip() or l.lstrip().startswith("#"): continue
+        rest = l.split(" ", 1)[1] if " " in l else ""
+        out.append(f"cp{len(out)} {rest}")
+    return out
+
+
 def write_replay(pid, kind, content):
     d = VERIF / "replays" / pid
     d.mkdir(parents=True, exist_ok=True)
